@@ -717,6 +717,11 @@ func (g *gen) execBinOp(x *ssa.BinOp, st *state) {
 		switch {
 		case isString(t):
 			g.setVal(x, app("str.++", a, b))
+			if g.con.flag("runes") {
+				g.runeFacts(x.X, a)
+				g.runeFacts(x.Y, b)
+				g.assume(sEq(app("runesOf", g.vals[x]), app("rapp", app("runesOf", a), app("runesOf", b))))
+			}
 		case isInt(t):
 			g.setVal(x, g.wrapArith(x.Type(), app("+", a, b), x, st))
 		default:
@@ -934,4 +939,21 @@ func plusOff(off, lo string) string {
 		return off
 	}
 	return app("+", off, lo)
+}
+
+// runeFacts: for an ASCII string literal, its rune sequence is spelled out (flag `runes`).
+func (g *gen) runeFacts(v ssa.Value, term string) {
+	c, ok := v.(*ssa.Const)
+	if !ok || c.Value == nil {
+		return
+	}
+	lit := constString(c)
+	seq := "rnil"
+	for i := 0; i < len(lit); i++ {
+		if lit[i] >= 0x80 {
+			return
+		}
+		seq = app("snoc", seq, fmt.Sprint(int(lit[i])))
+	}
+	g.assume(sAnd(sEq(app("runesOf", term), seq), sEq(app("runeCount", term), fmt.Sprint(len(lit)))))
 }
